@@ -3,6 +3,7 @@ package eng
 import (
 	"fmt"
 	"math"
+	"strings"
 	"time"
 
 	"github.com/ostafen/clover/v2/document"
@@ -21,7 +22,7 @@ func roundtripLeaves() []interface{} {
 		int64(0), int64(-1), int64(math.MinInt64), int64(math.MaxInt64), int64(1 << 53), int64(127), int64(-129),
 		uint64(0), uint64(255), uint64(1 << 63), uint64(math.MaxUint64),
 		float64(0), math.Copysign(0, -1), float64(1.5), float64(1e300), float64(5), math.Inf(-1),
-		"", "a", "\xff\xfe bad utf8", "multi\nline é",
+		"", "a", "\xff\xfe bad utf8", "multi\nline é", strings.Repeat("long-value-", 600),
 		time.Date(2024, 2, 29, 13, 14, 15, 123456789, time.UTC),
 		time.Date(1999, 12, 31, 23, 59, 59, 999999999, time.FixedZone("", 5*3600+30*60)),
 		time.Date(2010, 7, 4, 9, 0, 0, 1, ny),
@@ -83,8 +84,8 @@ func RoundtripSweep(run *ev.Run, backend string, vals []interface{}) {
 		run.Violation(kind+"|"+backend+"|"+typePath(it.want["f"]), fmt.Sprintf("[%s] %s: %s", backend, it.desc, msg), map[string]interface{}{"engine": "roundtrip", "backend": backend, "document": m.ToJSON(it.want), "finding": msg})
 	}
 	// insert in batches
-	for i := 0; i < len(items); i += 200 {
-		j := i + 200
+	for i := 0; i < len(items); i += 60 {
+		j := i + 60
 		if j > len(items) {
 			j = len(items)
 		}
